@@ -219,20 +219,22 @@ func (t *tree) clone() *tree {
 }
 
 type project struct {
-	mods      []*module
-	ts        tsconfig
-	root      pkgjson
-	pkg       pkgjson
-	nearPkg   bool              // src/node_modules/pkg exists (nearer node_modules)
-	extra     map[string]string // raw extra files (shadowing files, file<->dir swaps ...)
-	removed   map[string]bool   // generated files deleted by an edit
-	linkTo    string            // target of src/link.js ("" = no link)
-	cssColor  string
-	jsonK     int
-	libVal    int
-	subAsFile bool // "./sub" is src/sub.js instead of src/sub/index.js
-	qAsDir    bool // "./q.js" is the directory src/q.js/ (with index.js) instead of the file src/q.js
-	entries   []string
+	mods        []*module
+	ts          tsconfig
+	root        pkgjson
+	pkg         pkgjson
+	nearPkg     bool              // src/node_modules/pkg exists (nearer node_modules)
+	extra       map[string]string // raw extra files (shadowing files, file<->dir swaps ...)
+	removed     map[string]bool   // generated files deleted by an edit
+	linkTo      string            // target of src/link.js ("" = no link)
+	cssColor    string
+	jsonK       int
+	libVal      int
+	subAsFile   bool // "./sub" is src/sub.js instead of src/sub/index.js
+	qAsDir      bool // "./q.js" is the directory src/q.js/ (with index.js) instead of the file src/q.js
+	entries     []string
+	probe       *probeLayer
+	probeExpect string // set by render()
 }
 
 func (p *project) render() *tree {
@@ -260,7 +262,8 @@ func (p *project) render() *tree {
 	}
 	t.files["src/s.css"] = fmt.Sprintf("@import \"./t.css\";\n.a { color: %s }\n", p.cssColor)
 	t.files["src/t.css"] = ".t { margin: 0px }\n"
-	t.files["src/d.json"] = fmt.Sprintf("{ \"k\": %d }\n", p.jsonK)
+	p.probe.data.k = p.jsonK
+	p.probeExpect = p.probe.render(t.files)
 	// a TypeScript file without import/export: sloppy unless tsconfig strict/alwaysStrict says otherwise
 	t.files["src/legacy.ts"] = fmt.Sprintf("console.log(\"legacy\", typeof this, %d);\nvar legacyObj: any = { a: 1 };\ndelete legacyObj.a;\n", p.libVal)
 	t.files["src/lib/util.ts"] = fmt.Sprintf("export const u: number = %d;\n", p.libVal)
@@ -304,6 +307,8 @@ type op struct {
 type step struct {
 	Desc string `json:"edit"`
 	Ops  []op   `json:"ops"`
+	// the line the probe entry must print when the bundle of this step is run
+	ProbeExpect string `json:"probe_expect,omitempty"`
 	// files whose cached JSX AST may be stale because of the known defect
 	// (tsconfig jsx-mode edit while the file's contents stayed the same)
 	jsxMode bool
@@ -546,7 +551,7 @@ type history struct {
 var exts = []string{".js", ".ts", ".jsx", ".tsx"}
 
 func genProject(r *Rng) *project {
-	p := &project{extra: map[string]string{}, removed: map[string]bool{}, cssColor: "red", jsonK: 1, libVal: 5}
+	p := &project{extra: map[string]string{}, removed: map[string]bool{}, cssColor: "red", jsonK: 1, libVal: 5, probe: newProbeLayer(r)}
 	p.root = pkgjson{name: "app", typ: r.Pick([]string{"", "", "module", "commonjs"}), sideEffects: r.Intn(3)}
 	p.pkg = pkgjson{name: "pkg", main: r.Pick([]string{"./main.js", "./alt.js"}), exports: r.Intn(4), sideEffects: r.Intn(2)}
 	p.ts = tsconfig{present: r.Chance(85), jsx: r.Pick([]string{"", "react", "react-jsx", "react-jsxdev", "preserve"}), libDir: "lib", useDefine: r.Intn(3), strict: r.Intn(3), alwaysStrict: []int{0, 0, 1, 2}[r.Intn(4)], target: r.Pick([]string{"", "", "ES2020", "ESNext"})}
@@ -602,13 +607,16 @@ func genHistory(r *Rng, nsteps int) (*history, *project) {
 	if cfg.Splitting || !cfg.Bundle || r.Chance(30) {
 		cfg.Entries = append(cfg.Entries, p.mods[1].rel())
 	}
+	if cfg.Bundle {
+		cfg.Entries = append(cfg.Entries, "src/probe.js")
+	}
 	h.Cfg = cfg
 	ck := &clock{last: map[string]int64{}}
 	cur := newTree()
 	emit := func(desc string, extraOps []op, jsxMode bool) {
 		nt := p.render()
 		ops := append(extraOps, diffTrees(cur, nt, r, ck)...)
-		h.Steps = append(h.Steps, step{Desc: desc, Ops: ops, jsxMode: jsxMode})
+		h.Steps = append(h.Steps, step{Desc: desc, Ops: ops, jsxMode: jsxMode, ProbeExpect: p.probeExpect})
 		cur = nt
 	}
 	emit("initial tree", nil, false)
@@ -676,7 +684,7 @@ func (p *project) randomEdit(r *Rng, cur *tree) (string, []op, bool) {
 		}
 	}
 	for {
-		switch r.Intn(26) {
+		switch r.Intn(31) {
 		case 0, 1, 2: // content edit (length may change)
 			m := pickLive()
 			m.val += 1 + r.Intn(500)
@@ -928,6 +936,8 @@ func (p *project) randomEdit(r *Rng, cur *tree) (string, []op, bool) {
 			p.linkTo = t.name + t.ext
 			p.mods[0].link = true
 			return "symlink src/link.js -> " + p.linkTo, nil, false
+		case 26, 27, 28, 29, 30: // the data importers change, the data files stay untouched (cache hits)
+			return p.probe.flip(r), nil, false
 		case 24, 25: // tsconfig strict / alwaysStrict: absent <-> true <-> false (presence and value)
 			p.ts.present = true
 			p.mods[0].legacy = true
